@@ -33,6 +33,9 @@ PIPELINES = {
     "sort-take": (["--sort-by", ".", "--take", "2"], False),
     "unique-take": (["--unique", "--take", "3"], True),
     "merge-take": (["--take", "2", "--merge"], False),
+    # options that make the reader pass over some values must not make it pass over a failure
+    "only-oa": (["--only-objects-and-arrays"], True),
+    "only-oa-select": (["--only-objects-and-arrays", "--select", "(size .)=n"], True),
 }
 POLICIES = ("ignore", "stdout", "stderr", "panic")
 
@@ -48,6 +51,8 @@ def gen_unit(rng):
     if u["policy"] == "panic" and rng.random() < 0.7:
         u["gaps"] = [[] for _ in u["gaps"]]
     u["variant_seed"] = rng.getrandbits(32)
+    if rng.random() < 0.12 and u["policy"] != "panic":
+        u["head"] = rng.choice(("efbbbf", "efbbbf", "fffe", "ef", "efbb", "efbbbfefbbbf", "00"))
     return u
 
 
@@ -57,6 +62,9 @@ def run_unit(ctx, unit):
     pargs, streaming = PIPELINES[unit["pipeline"]]
     args = ["--on-error", unit["policy"]] + pargs
     data, _ = c06.build(unit, True)
+    if unit.get("head"):
+        # bytes a reader may be tempted to treat specially at the start of an input (a byte-order mark): noise like any other
+        data = bytes.fromhex(unit["head"]) + data
     base_case = core.Case(args, data)
     base = ctx.drv.run(base_case)
     if base.result in ("timeout", "abort", "panic"):
@@ -80,6 +88,9 @@ def run_unit(ctx, unit):
         k = vr.randrange(len(out0))
         cases.append(("write+short", k, core.Case(args, data, wfail=k, wshort=[vr.randint(1, 9) for _ in range(4)],
                                                   wintr=sorted(set(vr.randrange(60) for _ in range(3))))))
+    # a source that fails once and then delivers again (a receive timeout, EAGAIN): the failed read still ends the run
+    for k in list(range(min(n + 1, 8))) + [vr.randrange(n + 1) for _ in range(min(20, n + 1))]:
+        cases.append(("read-once", k, core.Case(args, data, rfail=k, ronce=True)))
     # a sink that fails once and then takes bytes again (EAGAIN on a full pipe that is drained a moment later): the failed
     # write still ends the run, and nothing is written behind the gap
     for _ in range(min(25, len(out0))):
@@ -163,6 +174,15 @@ def _judge(ctx, unit, args, data, base, streaming, unit_id, cases, obs):
             bad("fault-swallowed", "result is %s although the %s failed" % (o.result, kind.split("+")[0]))
             return True
         if kind.startswith("read"):
+            if kind == "read-once":
+                if o.reads_after_error:
+                    bad("read-after-error", "%d read calls after the (transient) read error; %d bytes pulled, fault at %d" % (o.reads_after_error, o.pulled, k))
+                    return True
+                if streaming and not out0.startswith(o.stdout):
+                    bad("not-a-prefix", "stdout is not a prefix of the fault-free stdout")
+                    return True
+                st.count("read_faults")
+                continue
             if o.reads_after_error:
                 bad("read-after-error", "%d read calls after the read error" % o.reads_after_error)
                 return True
